@@ -33,6 +33,8 @@ func (h *history) inputs() string {
 		items = append(items, h.extra[0], VL(h.dirty...), h.extra[1], VL(h.later...))
 	case "ctx":
 		items = append(items, h.extra[0], VL(h.dirty...), VL(h.later...))
+	case "copy":
+		items = append(items, VL(h.later...))
 	default:
 		items = append(items, VL(h.dirty...), VL(h.later...))
 	}
@@ -42,7 +44,7 @@ func (h *history) inputs() string {
 func firstDiff(a, b []string) string {
 	for i := 0; i < len(a) && i < len(b); i++ {
 		if a[i] != b[i] {
-			return fmt.Sprintf("observation %d: recycled=%s fresh=%s", i, clip(a[i]), clip(b[i]))
+			return fmt.Sprintf("observation %d: got=%s expected(fresh)=%s", i, clip(a[i]), clip(b[i]))
 		}
 	}
 	return fmt.Sprintf("observation count: recycled=%d fresh=%d", len(a), len(b))
@@ -73,13 +75,13 @@ func main() {
 	Quiet()
 	RegTestFilters()
 	st := NewStats("C20", cfg)
-	st.Rule = "one case = (object kind, dirtying call history through the public API, return to pool + re-acquire, later calls of the next user); kinds {args,msg,xfer,bb,sock,ctx(live)}; dirty histories of 1..25 calls over every setter (all header fields, add/set/del/parse/copy metadata with short, long and quoted keys, filters, bodies, statuses, sizes, swap entries, ids, partial reads); distinct by the full case text; non-trivial = at least 2 dirtying calls and at least one later observation"
+	st.Rule = "one case = (object kind, dirtying call history through the public API, return to pool + re-acquire, later calls of the next user); kinds {args,msg,xfer,bb,sock,ctx(live),copy (two containers: CopyTo in both directions into new/small/large/pooled destinations, then refill, mutation, release of either side, observing both)}; dirty histories of 1..25 calls over every setter (all header fields, add/set/del/parse/copy metadata with short, long and quoted keys, filters, bodies, statuses, sizes, swap entries, ids, partial reads); distinct by the full case text; non-trivial = at least 2 dirtying calls and at least one later observation"
 	w := NewCaseWriter(cfg)
 	distinct := DistinctSet{}
 	sampled := map[string]bool{}
 	live := newLive(cfg, st)
 	defer live.close()
-	kinds := []string{"args", "args", "msg", "msg", "msg", "xfer", "bb", "sock", "sock", "ctx", "ctx"}
+	kinds := []string{"args", "args", "msg", "msg", "msg", "xfer", "bb", "sock", "sock", "ctx", "ctx", "copy", "copy"}
 	for i := 0; i < cfg.N; i++ {
 		kind := kinds[i%len(kinds)]
 		var h *history
@@ -96,6 +98,8 @@ func main() {
 			h = runSockCase(cfg)
 		case "ctx":
 			h = live.runCase(i)
+		case "copy":
+			h = runCopyCase(cfg)
 		}
 		if h == nil {
 			st.Count("skipped:" + kind)
@@ -106,7 +110,12 @@ func main() {
 		st.Count(fmt.Sprintf("dirty-len:%s", bucket(len(h.dirty))))
 		// the property, on the implementation alone: recycled == fresh on every observable
 		if strings.Join(h.obs, " ") != strings.Join(h.fresh, " ") {
-			st.Fail(i, "recycled-differs:"+h.kind, "a recycled "+h.kind+" object answered differently from a new one: "+firstDiff(h.obs, h.fresh), h.human)
+			if h.kind == "copy" {
+				// here "fresh" is the expectation that the container not acted upon still shows what it showed
+				st.Fail(i, "copy-not-independent", "a call on one metadata container changed what the other one shows (copy shares buffers with its source): "+firstDiff(h.obs, h.fresh), h.human)
+			} else {
+				st.Fail(i, "recycled-differs:"+h.kind, "a recycled "+h.kind+" object answered differently from a new one: "+firstDiff(h.obs, h.fresh), h.human)
+			}
 		}
 		in := h.inputs()
 		w.Add(in, VL(h.obs...))
